@@ -4,4 +4,5 @@ From Coq Require Extraction ExtrOcamlBasic ExtrOcamlZBigInt.
 From Verif Require Import Model.PublicView.
 Extraction Language OCaml.
 Extraction "../ocaml/c16_model.ml" init step exports key_codes out_taint kcomp
-  wk_init wstep wexports wk_codes.
+  wk_init wstep wexports wk_codes
+  wal_init wal_step wal_exports wal_returns wal_mains.
